@@ -16,11 +16,24 @@ NA = {
  "C19": "pure rule soundness over widths/values; the rayon/Mutex code of the synthesis tool is not what the property is about",
 }
 
+SIM = "deterministic simulation: real patronus code against a simulated solver process behind the process/pipe seam (hook H1); one seed decides workload, solver answers (models, cores, print forms) and transport events; "
+TRUST = "Trusts the reference solver (validated by `./check selftest` against its own evaluator, brute force and the z3 binary) and the reference semantics; bounded sizes (see evidence.assumptions). Sampling, not proof."
 CLAIMED = {
  "C02": dict(level="exploration",
-   text="Seeded search over generated transition systems x solver profile x bad-state mode x simplification x bound, each run through the real parse->simplify->SmtLibSolverCtx->bmc pipeline against a simulated solver process whose model choices and transport behaviour are drawn from the run seed; every verdict is compared with exhaustive explicit-state reachability. Sampling, not proof.",
-   note="Trusts the reference solver (validated by `./check selftest` against its own evaluator, brute force and the z3 binary) and the reachability oracle; systems are bounded to <= 11 state bits, <= 8 input bits, k <= 8.",
-   technique="deterministic simulation: simulated solver process + seeded model/transport choices, reference-model oracle (explicit-state reachability)", ref="4/C02"),
+   text="Seeded search over generated transition systems x solver profile x bad-state mode x simplification x bound, each run through the real parse->simplify->SmtLibSolverCtx->bmc pipeline against a simulated solver process whose model choices and transport behaviour are drawn from the run seed; every verdict is compared with exhaustive explicit-state reachability.",
+   note=TRUST, technique=SIM+"oracle = exhaustive explicit-state reachability (reference model)", ref="4/C02"),
+ "C03": dict(level="exploration",
+   text="Failing systems are model-checked (bmc, and pdr with its BMC fallback) several times under different seeded answer policies of the simulated solver (which model, don't-care values, print forms); every returned witness is replayed in an independent reference simulator: names/order, init expressions, constraints at every step, exact set of failed bad states.",
+   note=TRUST, technique=SIM+"oracle = witness replay in the reference transition-system semantics", ref="4/C03"),
+ "C04": dict(level="exploration",
+   text="The public unrolling API (init_at(0) / init_at(j>0), unroll x n) and whole BMC/PDR conversations are driven over the real SmtLibSolverCtx to a strict SMT-LIB 2.6 reference solver that rejects redefinition, use before definition, ill-sorted terms and out-of-mode commands (wire monitor on every message); faithfulness is checked by evaluating the per-step symbols out of band under random concrete executions of the system.",
+   note=TRUST+" `(as const ...)` (an extension) rejected by a profile is treated as a capability question (C02), not as ill-formedness.", technique=SIM+"invariant on every wire message (strict reference solver) + history check against reference executions", ref="4/C04"),
+ "C10": dict(level="exploration",
+   text="Bit-vector systems are run through the real pdr engine (incl. solver restart and BMC fallback) under seeded solver choices: which model becomes a cube, which unsat core (minimal by randomised deletion / full / in between; shuffled; re-spelled) drives generalisation, both generalisation modes, check-sat-assuming and push/pop styles; verdicts are compared with full-fixpoint explicit-state reachability and any error/Unknown/panic/deadlock/step-budget overrun is a violation.",
+   note=TRUST, technique=SIM+"oracle = full-fixpoint explicit-state reachability; liveness as a step bound on transport events", ref="4/C10"),
+ "C15": dict(level="fault_enumeration",
+   text="For every sampled BMC/PDR conversation, every response-bearing point (all if <= 48) x every lossy fault kind (error replies of all lengths and shapes, unknown, empty, truncated+exit, exit before/after the command, exit after the reply, garbage, spawn failure) is replayed as a run with exactly that one fault against the fault-free twin of the same seed; oracle: no panic/deadlock/livelock, no Success/Fail verdict resting on a faulty answer, solver error text carried in full, ineffective faults and benign perturbations change nothing.",
+   note=TRUST+" Stalled-but-alive and lying solvers are outside the fault model. Enumeration is exhaustive per conversation, not for the property.", technique="deterministic simulation with fault injection: fault point x fault kind enumeration over simulated solver conversations, clean-twin differential oracle, step-bounded hang detection", ref="4/C15"),
 }
 
 checks = []
